@@ -90,6 +90,18 @@ theorem delivered_fields_terminated (cfg : Cfg) (req : Req) (body : Bytes) (st :
   rw [e1, ← e2]
   exact this
 
+/-- **A failed form parse stays failed and leaves nothing behind** (fix 9db424c).  When reading
+`POST` fails with `e` (a mapped 4xx by `body_access_total`), then in every sequence of accesses on
+that request, in any order and however interleaved with `body` / `json`, every access to
+`forms`, `files` or `POST` raises that same `e`: none of them ever returns a (partial or empty)
+mapping. -/
+theorem failed_post_stays_failed (cfg : Cfg) (jl : JLoads) (req : Req) (e : Exc)
+    (h : (postOf cfg jl req).result = .error e) (accs : List Accessor) (i : Nat) (a : Accessor)
+    (hi : accs[i]? = some a) (ha : a = .post ∨ a = .forms ∨ a = .files) :
+    (accessSeq cfg jl req {} accs)[i]? = some (.error e) :=
+  accessSeq_failed cfg jl req e h accs {} ⟨rfl, rfl, rfl⟩ i a hi
+    (by rcases ha with rfl | rfl | rfl <;> rfl)
+
 /-! ### composition with the body readers (C04, C05, C13) -/
 
 /-- the result of `_body_read` (`Model/BodyMixin.lean`) as the framing input of this model; `chunks`
@@ -148,7 +160,7 @@ example :
     (accessSeq ⟨100, Gen.formsErrorsMap⟩ (fun _ => .null)
       ⟨some "multipart/form-data; boundary=b".toList, 17,
        .ok [[45, 45, 98, 13, 10, 13, 10, 13, 10, 120, 13, 10, 45, 45, 98, 45, 45]]⟩ {}
-      [.forms, .files, .body]).map statusOf = [400, 200, 200] := by
+      [.forms, .files, .body]).map statusOf = [400, 400, 200] := by
   decide +kernel
 
 /-- `delivered_fields_terminated` is not vacuous: a body whose second part is cut off delivers
